@@ -383,6 +383,7 @@ class Program(object):
             span = 1.0 / (len(pieces) + 1)
             start = 0
             cur = mk(b.id, [], [], None, b.label)
+            last_thread = None
             for j, (idx, g, loop) in enumerate(pieces, 1):
                 gflat = self._flatten(g, depth - 1, stack + (g.id,), root)
                 call = b.elems[idx]
@@ -391,9 +392,17 @@ class Program(object):
                 nf.__dict__.setdefault("inlined_funcs", set()).update({g.id} | set(getattr(gflat, "inlined_funcs", ())))
                 # the caller branches on what the helper returned: which of the helper's paths goes with which branch is not modelled
                 t_ = b.term or {}
-                if idx == len(b.elems) - 1 or all(x["k"] in ("cast", "use") for x in b.elems[idx + 1:]):
-                    if t_ and ("c:" + (call.get("callee") or "")) in (t_.get("refs") or []) and len({str(r_.get("const")) + (r_.get("t") or "") for r_ in gflat.events("return")} | {str(r_.get("const")) + (r_.get("t") or "") for r_ in gflat.events("iret") if r_.get("of") == gflat.id}) > 1:
-                        nf.__dict__.setdefault("unmodelled", []).append("the result of %s is branched on at line %s (which of its paths goes with which branch is not modelled)" % (gflat.base.rsplit("::", 1)[-1], t_.get("l")))
+                thread = None
+                rest_evs = b.elems[idx + 1:]
+                # `r = helper(..)` directly followed by the branch: the local that receives the result
+                res_vars = {x.get("var") for x in rest_evs if x["k"] == "decl" and x.get("var") and ((x.get("init") or {}).get("t") or "").strip() == (call.get("t") or "").strip()}
+                if all(x["k"] in ("cast", "use") or (x["k"] == "decl" and x.get("var") in res_vars) for x in rest_evs):
+                    on_call = ("c:" + (call.get("callee") or "")) in (t_.get("refs") or [])
+                    on_var = bool(res_vars) and any(("v:" + v_) in (t_.get("leafrefs") or t_.get("refs") or []) for v_ in res_vars)
+                    if t_ and (on_call or on_var) and len({str(r_.get("const")) + (r_.get("t") or "") for r_ in gflat.events("return")} | {str(r_.get("const")) + (r_.get("t") or "") for r_ in gflat.events("iret") if r_.get("of") == gflat.id}) > 1:
+                        # the caller branches on what the helper returned: every path of the helper that returns a constant is led
+                        # straight to the branch that constant selects (see thread_returns); what is left is not modelled
+                        thread = {"call": call, "vars": res_vars, "helper": gflat, "irets": []}
                 for i, p_ in enumerate(gflat.params):
                     args = call.get("args") or []
                     if i < len(args) and p_.get("name"):
@@ -440,7 +449,7 @@ class Program(object):
                                     out["vd" if k_ in ("v", "var") else "rootd"] = ren[v_][1]
                             elif k_ in ("vd", "rootd") and out.get("v" if k_ == "vd" else "root") != x.get("v" if k_ == "vd" else "root"):
                                 out.setdefault(k_, v_) if ren.get(x.get("v" if k_ == "vd" else "root"), (None, None))[1] is None else None
-                            elif k_ in ("t", "cond") and isinstance(v_, str) and tpat is not None:
+                            elif k_ in ("t", "cond", "b") and isinstance(v_, str) and tpat is not None:
                                 out[k_] = tpat.sub(lambda m_: txt[m_.group(1)], v_)
                             elif k_ in ("refs", "leafrefs") and isinstance(v_, list):
                                 out[k_] = [("v:" + ren[r_[2:]][0]) if isinstance(r_, str) and r_.startswith("v:") and r_[2:] in ren else r_ for r_ in v_]
@@ -478,6 +487,8 @@ class Program(object):
                         else:
                             succs.append(idmap[s_])
                     mk(idmap[gb.id], elems, succs, subst(gb.term) if gb.term else gb.term, gb.label)
+                    if thread is not None and last_kind == "return":
+                        thread["irets"].append(idmap[gb.id])
                 cur.succs = [idmap[gflat.entry]] if gflat.entry != gflat.exit else [rest_id]
                 cur.term = None
                 if loop and gflat.entry != gflat.exit:
@@ -490,8 +501,11 @@ class Program(object):
                             cb.succs = [hdr_id if s_ == rest_id else s_ for s_ in cb.succs]
                 cur = mk(rest_id, [], [], None, None)
                 start = idx + 1
+                last_thread = thread
             cur.elems += [clone_ev(e) for e in b.elems[start:]]
             cur.succs, cur.term = list(b.succs), b.term
+            if last_thread is not None:
+                self._thread_returns(nf, func, cur, last_thread, span, mk, clone_ev)
         # renumber events and rebuild predecessors
         for blk in nf.blocks.values():
             for i, e in enumerate(blk.elems):
@@ -501,6 +515,80 @@ class Program(object):
                 if s_ is not None and s_ in nf.blocks:
                     nf.blocks[s_].preds.append(blk.id)
         return nf
+
+    def _thread_returns(self, nf, func, rest, th, span, mk, clone_ev):
+        """rest: the block that follows an expanded helper and ends in a branch on the helper's result.  Every block of the helper
+        that ends in `return <constant>` gets its own copy of `rest` that goes only where that constant leads (if / == / != / switch);
+        a return whose value is not a constant keeps going to `rest` itself, and the function is then marked as not fully modelled."""
+        t_ = rest.term or {}
+        call, helper = th["call"], th["helper"]
+        ctext = (call.get("t") or "").strip()
+
+        def is_subject(ref):
+            ref = ref or {}
+            return (ref.get("t") or "").strip() == ctext or (ref.get("v") in th["vars"] and (ref.get("t") or "").strip() == ref.get("v"))
+
+        def choose(c):
+            k = t_.get("k")
+            if k == "if" and len(rest.succs) == 2 and not t_.get("leaf"):
+                if not t_.get("cmp"):
+                    if not is_subject(t_.get("core")) or not isinstance(c, bool):
+                        return None
+                    truth = c
+                elif t_.get("cmp") in ("==", "!=") and t_.get("rconst") is not None and is_subject(t_.get("lhs")) and type(t_.get("rconst")) == type(c):
+                    truth = (t_["rconst"] == c) == (t_["cmp"] == "==")
+                else:
+                    return None
+                return 0 if truth != bool(t_.get("neg")) else 1
+            if k == "switch" and is_subject(t_.get("core")) or (k == "switch" and (t_.get("cond") or "").strip() == ctext):
+                dflt = None
+                for i_, s_ in enumerate(rest.succs):
+                    lb = (func.blocks[s_].label or {}) if s_ in func.blocks else {}
+                    if lb.get("k") == "case" and lb.get("const") == c:
+                        return i_
+                    if lb.get("k") != "case":
+                        dflt = i_
+                return dflt
+            return None
+        left = 0
+        made = {}
+        # `return c ? A : B;`: clang evaluates the arms in two blocks that join in the block of the return statement; that block is
+        # doubled so that each arm returns its own constant
+        irets = []
+        for bid in th["irets"]:
+            blk = nf.blocks[bid]
+            ir = [e for e in blk.elems if e["k"] == "iret" and e.get("of") == helper.id][-1]
+            preds = [x for x in nf.blocks.values() if bid in x.succs]
+            heads = [x for x in nf.blocks.values() if (x.term or {}).get("k") == "cond" and len(x.succs) == 2 and len(preds) == 2 and
+                     x.succs[0] in (preds[0].id, preds[1].id) and x.succs[1] in (preds[0].id, preds[1].id) and x.succs[0] != x.succs[1]]
+            if ir.get("const") is None and ir.get("arms") and len(heads) == 1 and all(len(x.succs) == 1 for x in preds):
+                for n_, arm in enumerate(ir["arms"]):
+                    nid = bid - span * 0.001 * (n_ + 1)
+                    elems = [clone_ev(e) for e in blk.elems]
+                    for e in elems:
+                        if e["k"] == "iret" and e.get("of") == helper.id:
+                            e["const"] = arm
+                    mk(nid, elems, blk.succs, blk.term, blk.label)
+                    nf.blocks[heads[0].succs[n_]].succs = [nid]
+                    irets.append(nid)
+                del nf.blocks[bid]
+            else:
+                irets.append(bid)
+        for bid in irets:
+            blk = nf.blocks[bid]
+            ir = [e for e in blk.elems if e["k"] == "iret" and e.get("of") == helper.id][-1]
+            c = ir.get("const")
+            k_ = choose(c) if c is not None else None
+            if k_ is None or rest.succs[k_] is None:
+                left += 1
+                continue
+            key = repr(c)
+            if key not in made:
+                nid = rest.id - span * 0.04 * (len(made) + 1) / 8.0
+                made[key] = mk(nid, [clone_ev(e) for e in rest.elems], [rest.succs[k_]], None, None)
+            blk.succs = [made[key].id if s_ == rest.id else s_ for s_ in blk.succs]
+        if left:
+            nf.__dict__.setdefault("unmodelled", []).append("the result of %s is branched on at line %s (which of its paths goes with which branch is not modelled)" % (helper.base.rsplit("::", 1)[-1], t_.get("l")))
 
     def _lambda_in_reference(self, func, ev):
         """heuristic for lambdas handed to standard algorithms: the reference snapshot lists only *named* local lambdas, so an
@@ -518,8 +606,10 @@ class Program(object):
 
     def lambdas_in(self, func):
         # for a flattened function: also the lambdas written in the helpers that were expanded into it
-        owners = {func.id} | set(getattr(func, "inlined_funcs", ()))
-        return [f for f in self.funcs.values() if f.parent in owners]
+        # (a lambda whose body was itself expanded in place is not listed: its events are events of func)
+        inl = set(getattr(func, "inlined_funcs", ()))
+        owners = {func.id} | inl
+        return [f for f in self.funcs.values() if f.parent in owners and f.id not in inl]
 
     def lambda_by_id(self, lid, ctx=None):
         # lambda ids are "lambda@file:line:col" possibly with "#in:<instantiation>" suffix
